@@ -101,25 +101,41 @@ theorem OnlyOOB_retUnmodelled (w : MW) (h : σ) : OnlyOOB (retUnmodelled w h) :=
 
 /-! ## the I/O cores (no heap access at all) -/
 
-theorem OnlyOOB_doWrite (H : Host σ) (w : MW) (h : σ) (iovs cnt res : Nat) (wr : σ → List Bytes → σ × R Nat) :
-    OnlyOOB (doWrite H w h iovs cnt res wr) := by
-  unfold doWrite
-  refine OnlyOOB.bind (OnlyOOB_readIovecs _ _ _ _ _ _) fun _ _ => ?_
-  refine OnlyOOB.bind (OnlyOOB_gather _ _) fun _ _ => ?_
+theorem OnlyOOB_finishWrite (w : MW) (res : Nat) (x : σ × R Nat) : OnlyOOB (finishWrite w res x) := by
+  unfold finishWrite
   split
   · exact OnlyOOB_retUnmodelled _ _
   · exact OnlyOOB_ret _ _ _
   · exact OnlyOOB.bind (OnlyOOB_store _ _ _) fun _ _ => OnlyOOB_ret _ _ _
 
-theorem OnlyOOB_doRead (w : MW) (h : σ) (iovs cnt res : Nat) (rd : σ → List Nat → σ × R Bytes) :
-    OnlyOOB (doRead w h iovs cnt res rd) := by
-  unfold doRead
+theorem OnlyOOB_doWrite (H : Host σ) (w : MW) (h : σ) (iovs cnt res : Nat) (wr : σ → List Bytes → σ × R Nat) :
+    OnlyOOB (doWrite H w h iovs cnt res wr) := by
+  unfold doWrite
   refine OnlyOOB.bind (OnlyOOB_readIovecs _ _ _ _ _ _) fun _ _ => ?_
+  refine OnlyOOB.bind (OnlyOOB_gather _ _) fun _ _ => ?_
+  exact OnlyOOB_finishWrite _ _ _
+
+theorem OnlyOOB_finishRead (w : MW) (segs : List (Nat × Nat)) (res : Nat) (x : σ × R Bytes) :
+    OnlyOOB (finishRead w segs res x) := by
+  unfold finishRead
   split
   · exact OnlyOOB_retUnmodelled _ _
   · exact OnlyOOB_ret _ _ _
   · refine OnlyOOB.bind (OnlyOOB_scatter _ _ _) fun _ _ => ?_
     exact OnlyOOB.bind (OnlyOOB_store _ _ _) fun _ _ => OnlyOOB_ret _ _ _
+
+theorem OnlyOOB_doRead (w : MW) (h : σ) (iovs cnt res : Nat) (rd : σ → List Nat → σ × R Bytes) :
+    OnlyOOB (doRead w h iovs cnt res rd) := by
+  unfold doRead
+  refine OnlyOOB.bind (OnlyOOB_readIovecs _ _ _ _ _ _) fun _ _ => ?_
+  exact OnlyOOB_finishRead _ _ _ _
+
+theorem OnlyOOB_finishSeek (w : MW) (res : Nat) (x : σ × R Nat) : OnlyOOB (finishSeek w res x) := by
+  unfold finishSeek
+  split
+  · exact OnlyOOB_retUnmodelled _ _
+  · exact OnlyOOB_ret _ _ _
+  · exact OnlyOOB.bind (OnlyOOB_store _ _ _) fun _ _ => OnlyOOB_ret _ _ _
 
 theorem OnlyOOB_doSeek (cfg : Cfg) (H : Host σ) (s : St σ) (w : MW) (n : Nat) (off : Int) (wh : Whence) (res : Nat) :
     OnlyOOB (doSeek cfg H s w n off wh res) := by
@@ -128,10 +144,7 @@ theorem OnlyOOB_doSeek (cfg : Cfg) (H : Host σ) (s : St σ) (w : MW) (n : Nat) 
   · exact OnlyOOB_ret _ _ _
   · split
     · exact OnlyOOB_ret _ _ _
-    · split
-      · exact OnlyOOB_retUnmodelled _ _
-      · exact OnlyOOB_ret _ _ _
-      · exact OnlyOOB.bind (OnlyOOB_store _ _ _) fun _ _ => OnlyOOB_ret _ _ _
+    · exact OnlyOOB_finishSeek _ _ _
 
 /-! ## heap reads: safe when the string is live -/
 
@@ -140,19 +153,21 @@ theorem OnlyOOB_readHeap {heap : List Cell} {h : Nat} (hl : ∃ p, heap[h]? = so
   obtain ⟨p, hp⟩ := hl
   unfold readHeap; rw [hp]; exact OnlyOOB.val _
 
-theorem OnlyOOB_resolvePath {heap : List Cell} {h : Nat} (gp : Bytes) (hl : ∃ p, heap[h]? = some (Cell.live p)) :
-    OnlyOOB (resolvePath heap h gp) := by
+theorem OnlyOOB_resolvePath (cfg : Cfg) {heap : List Cell} {h : Nat} (gp : Bytes) (hl : ∃ p, heap[h]? = some (Cell.live p)) :
+    OnlyOOB (resolvePath cfg heap h gp) := by
   unfold resolvePath
   split
   · exact OnlyOOB.val _
   · split
     · exact OnlyOOB.val _
-    · refine OnlyOOB.bind (OnlyOOB_readHeap hl) fun dir _ => ?_
-      split
-      · split
-        · exact OnlyOOB.oob
-        · exact OnlyOOB.val _
+    · split
       · exact OnlyOOB.val _
+      · refine OnlyOOB.bind (OnlyOOB_readHeap hl) fun dir _ => ?_
+        split
+        · split
+          · exact OnlyOOB.oob
+          · exact OnlyOOB.val _
+        · exact OnlyOOB.val _
 
 /-- the facts about descriptors delivered by `wasiFileDescriptorGet` that make a call safe -/
 structure SafeTable (cfg : Cfg) (s : St σ) : Prop where
@@ -182,7 +197,7 @@ theorem OnlyOOB_pathPrologue (cfg : Cfg) (s : St σ) (hs : SafeTable cfg s) (w :
     · exact OnlyOOB.val _
     · rename_i hp hpath
       refine OnlyOOB.bind (OnlyOOB_read _ _ _) fun gp _ => ?_
-      refine OnlyOOB.bind (OnlyOOB_resolvePath gp (hs.live n d hp hd hpath)) fun r _ => ?_
+      refine OnlyOOB.bind (OnlyOOB_resolvePath cfg gp (hs.live n d hp hd hpath)) fun r _ => ?_
       split
       · exact OnlyOOB.val _
       · exact OnlyOOB.val _
@@ -355,14 +370,14 @@ theorem OnlyOOB_stepRO (cfg : Cfg) (H : Host σ) (abi : Abi) (s : St σ) (hs : S
         · exact OnlyOOB_ret _ _ _
         · rename_i oh hoh
           refine OnlyOOB.bind (OnlyOOB_read _ _ _) fun ogp _ => ?_
-          refine OnlyOOB.bind (OnlyOOB_resolvePath ogp (hs.live ofd od oh hod hoh)) fun r _ => ?_
+          refine OnlyOOB.bind (OnlyOOB_resolvePath cfg ogp (hs.live ofd od oh hod hoh)) fun r _ => ?_
           split
           · exact OnlyOOB_ret _ _ _
           · split
             · exact OnlyOOB_ret _ _ _
             · rename_i nh hnh
               refine OnlyOOB.bind (OnlyOOB_read _ _ _) fun ngp _ => ?_
-              refine OnlyOOB.bind (OnlyOOB_resolvePath ngp (hs.live nfd nd nh hnd hnh)) fun r _ => ?_
+              refine OnlyOOB.bind (OnlyOOB_resolvePath cfg ngp (hs.live nfd nd nh hnd hnh)) fun r _ => ?_
               split
               · exact OnlyOOB_ret _ _ _
               · split
@@ -384,7 +399,7 @@ theorem OnlyOOB_stepRO (cfg : Cfg) (H : Host σ) (abi : Abi) (s : St σ) (hs : S
         · exact OnlyOOB_ret _ _ _
         · rename_i hp hpath
           refine OnlyOOB.bind (OnlyOOB_read _ _ _) fun ngp _ => ?_
-          refine OnlyOOB.bind (OnlyOOB_resolvePath ngp (hs.live n d hp hd hpath)) fun r _ => ?_
+          refine OnlyOOB.bind (OnlyOOB_resolvePath cfg ngp (hs.live n d hp hd hpath)) fun r _ => ?_
           split
           · exact OnlyOOB_ret _ _ _
           · split
@@ -471,6 +486,22 @@ theorem OnlyOOB_fdReaddir (cfg : Cfg) (hg : cfg.readdirNullPath.isSome = true) (
           · exact OnlyOOB.val _
         · exact OnlyOOB.val _
 
+theorem OnlyOOB_finishOpen (H : Host σ) (s : St σ) (w : MW) (fl : List OFlag) (fdPtr : Nat) (p : Bytes)
+    (x : σ × R Nat) : OnlyOOB (finishOpen H s w fl fdPtr p x) := by
+  unfold finishOpen
+  split
+  · exact OnlyOOB.val _
+  · exact OnlyOOB.val _
+  · split
+    · exact OnlyOOB.val _
+    · split
+      · exact OnlyOOB.val _
+      · split
+        · rename_i k hk; intro k' hk'; cases hk'; exact OnlyOOB_store _ _ _ k hk
+        · exact OnlyOOB.trap _
+        · exact OnlyOOB.oof
+        · exact OnlyOOB.val _
+
 theorem OnlyOOB_pathOpen (cfg : Cfg) (H : Host σ) (s : St σ) (hs : SafeTable cfg s) (a b c d e f g hh i : Nat) :
     OnlyOOB (pathOpen cfg H s a b c d e f g hh i) := by
   unfold pathOpen
@@ -481,18 +512,7 @@ theorem OnlyOOB_pathOpen (cfg : Cfg) (H : Host σ) (s : St σ) (hs : SafeTable c
   · exact OnlyOOB.trap _
   · exact OnlyOOB.oof
   · exact OnlyOOB.val _
-  · split
-    · exact OnlyOOB.val _
-    · exact OnlyOOB.val _
-    · split
-      · exact OnlyOOB.val _
-      · split
-        · exact OnlyOOB.val _
-        · split
-          · rename_i k hk; intro k' hk'; cases hk'; exact OnlyOOB_store _ _ _ k hk
-          · exact OnlyOOB.trap _
-          · exact OnlyOOB.oof
-          · exact OnlyOOB.val _
+  · exact OnlyOOB_finishOpen _ _ _ _ _ _ _
 
 /-- the source has the three repairs of the descriptor code -/
 structure Fixed (cfg : Cfg) : Prop where
